@@ -184,6 +184,12 @@ for k,v in ADDED4.items():
     CLAIMS[k]["text"] = CLAIMS[k]["text"] + v
 for k,v in ADDED3.items():
     CLAIMS[k]["text"] = CLAIMS[k]["text"] + v
+ADDED5 = {
+ "C01": " After the focused hunts: a nil reflect type, a nil registry entry and a nil result of a type factory are followed to their uses (C01-NILTYPE, C01-NILPATH, C01-REFLECT); the methods of a type whose empty prototype the registry hands to scripts do not dereference its fields unguarded (C01-PROTO); a driver loop without a condition does not go round again after its input could not be read (C01-RETRY); no process-level state that the set-up of an interpreter reads is written from the script side under a name the script chose (C01-SETUP); every call in Run that re-enters Run, and every place where the compiler compiles what a macro returned or a file contained, is behind a depth counter compared with a bound (C01-NEST); no function calls itself along the spine of a list (C01-SPINE). Not decided: that the bound fits a particular host's stack; recursion on the nesting depth of the text; indirect recursion along a list.",
+ "C02": " Map over a list applies the function to the head of the pair the loop stands on and moves on by the tail (or to collected elements at an ascending index).",
+}
+for k,v in ADDED5.items():
+    CLAIMS[k]["text"] = CLAIMS[k]["text"] + v
 NA_DEFAULT="rules not built yet (build in progress; see DESIGN.md §7)"
 NA = {}
 
